@@ -785,13 +785,15 @@ func fieldOf(v ssa.Value) (owner string, field string, base ssa.Value, ok bool) 
 		if st == nil {
 			return "", "", nil, false
 		}
-		return typeName(deref(x.X.Type())), st.Field(x.Field).Name(), x.X, true
+		o := typeName(deref(x.X.Type()))
+		return o, canonFieldName(o, st.Field(x.Field).Name()), x.X, true
 	case *ssa.Field:
 		st, _ := x.X.Type().Underlying().(*types.Struct)
 		if st == nil {
 			return "", "", nil, false
 		}
-		return typeName(x.X.Type()), st.Field(x.Field).Name(), x.X, true
+		o := typeName(x.X.Type())
+		return o, canonFieldName(o, st.Field(x.Field).Name()), x.X, true
 	}
 	return "", "", nil, false
 }
